@@ -25,6 +25,9 @@ void harness(void) {
     len = ref_oer(&in.v, enc, sizeof(enc));
 #endif
     ASSUME(len <= TV_MAXENC);
+#ifdef FIXED_K      /* split point enumerated instead of symbolic (one query per k) */
+    in.k = FIXED_K;
+#endif
     ASSUME(in.k < len);                      /* proper prefix */
     TYPE_T *v = 0;
     size_t done = 0;
